@@ -6,7 +6,8 @@ package main
 //
 // A case is a ';'-separated operation list (replayable with --only, shrinkable by dropping operations):
 //
-//   g=<genesis>;f=<forbidden ids>;[ho=<ids in ascending order of their hash text>;]<op>;<op>;...
+//   g=<genesis>;f=<forbidden ids>;[ho=<ids in ascending order of their hash text>;][zw=1;]<op>;<op>;...
+//   (zw=1: the history contains zero-work headers - the history-level oracle is not applied, model = implementation only)
 //
 //   op = <id>,<prev>,<bits>,<ver>,<merkle>,<ts>,<nonce>   Chains.Add of that header (common_chain.go syntax)
 //      | p=<batch>:<key>    one GET /api/v1/chain/merkleroot?batchSize=<batch>&lastEvaluatedKey=<key>
@@ -204,6 +205,9 @@ func (r *c08Runner) run(head map[string]string, ops []merkOp, tag string) error 
 	dup := c08HasDupRoots(h)
 	if dup {
 		sb.WriteString(";ho=" + c08HashOrder(m, h))
+	}
+	if head["zw"] != "" {
+		sb.WriteString(";zw=1")
 	}
 	var obs []string
 	cursor := ""
@@ -424,7 +428,11 @@ func runC08(c *Ctx) error {
 		if rng.Intn(25) == 0 {
 			ops = append(ops, qop("d", "S"), qop("w", "2"), qop("p", "2:-"), qop("p", "2:r1"), qop("p", "0:-"))
 		}
-		return r.run(headOf(h), ops, tag)
+		hd := headOf(h)
+		if tag == "zero-work" {
+			hd["zw"] = "1"
+		}
+		return r.run(hd, ops, tag)
 	}
 	// interleaved: pages of one walk between submissions (appends and reorganisations)
 	interleaved := func(h *History, tag string) error {
@@ -458,6 +466,12 @@ func runC08(c *Ctx) error {
 	}
 	for n := 1; n <= c.Pick(8, 14); n++ {
 		if err := static(c08ForkEverywhere(rng, n), "fork-at-every-height", true, n); err != nil {
+			return err
+		}
+	}
+	for i := 0; i < c.Pick(50, 400); i++ {
+		h := GenHistory(rng, GenOpts{N: 2 + rng.Intn(c.Pick(14, 26)), PUnknown: 0.06, PLate: 0.08, PDup: 0.05, ZeroWork: true, Deep: i%2 == 0})
+		if err := static(h, "zero-work", i%3 == 0, -1); err != nil {
 			return err
 		}
 	}
